@@ -3080,6 +3080,7 @@ class LocalGitClient(GitClient):
                         _to_optional_dict(new_refs), ref_status=ref_status
                     )
 
+            applied: list[tuple[Ref, ObjectID, ObjectID]] = []
             for refname, new_sha1 in new_refs.items():
                 old_sha1 = old_refs.get(refname, ZERO_SHA)
                 if new_sha1 != ZERO_SHA:
@@ -3100,6 +3101,26 @@ class LocalGitClient(GitClient):
                     if not removed:
                         _progress(f"unable to remove {refname!r}".encode())
                         ref_status[refname] = "unable to remove"
+
+                if refname not in ref_status:
+                    applied.append((refname, old_sha1, new_sha1))
+                elif atomic:
+                    # A ref failed after validation (a concurrent update, a
+                    # ref that cannot be written): put the refs already
+                    # updated back and fail them all.
+                    for name, old, new in reversed(applied):
+                        try:
+                            if old == ZERO_SHA:
+                                target.refs.remove_if_equals(name, new)
+                            elif new == ZERO_SHA:
+                                target.refs.add_if_new(name, old)
+                            else:
+                                target.refs.set_if_equals(name, new, old)
+                        except (OSError, FileLocked):
+                            _progress(f"unable to restore {name!r}".encode())
+                    for name in new_refs:
+                        ref_status.setdefault(name, "atomic push failed")
+                    break
 
         return SendPackResult(_to_optional_dict(new_refs), ref_status=ref_status)
 
